@@ -398,3 +398,166 @@ Qed.
 (* dictionaries: keys are unique *)
 Definition DK (n : node) : Prop :=
   NoDup (map fst (n_lsubs n)) /\ NoDup (map fst (n_rsubs n)) /\ NoDup (map fst (n_pid n)) /\ NoDup (map fst (n_pname n)).
+
+Lemma ND_aset_S {V} k (v : V) t : NoDup (map fst t) -> NoDup (map fst (aset str_eqb k v t)).
+Proof. apply NoDup_keys_aset, str_eqb_spec. Qed.
+Lemma ND_aset_N {V} k (v : V) t : NoDup (map fst t) -> NoDup (map fst (aset N.eqb k v t)).
+Proof. apply NoDup_keys_aset, N.eqb_eq. Qed.
+Lemma ND_aremove_S {V} k (t : list (str * V)) : NoDup (map fst t) -> NoDup (map fst (aremove str_eqb k t)).
+Proof. apply NoDup_keys_aremove. Qed.
+Lemma ND_aremove_N {V} k (t : list (N * V)) : NoDup (map fst t) -> NoDup (map fst (aremove N.eqb k t)).
+Proof. apply NoDup_keys_aremove. Qed.
+Lemma ND_filter {K V} f (t : list (K * V)) : NoDup (map fst t) -> NoDup (map fst (filter f t)).
+Proof. apply NoDup_keys_filter. Qed.
+
+Lemma ND_flat_peer x (t : list (str * list name)) :
+  NoDup (map fst t) ->
+  NoDup (map fst (flat_map (fun e => if smem str_eqb x (snd e) then
+                           let l' := sdel str_eqb x (snd e) in if is_nil l' then [] else [(fst e, l')]
+                         else [e]) t)).
+Proof.
+  induction t as [|[k0 l0] t IH]; simpl; intro H; [constructor|]. inversion H; subst.
+  assert (Hsub : forall k, In k (map fst (flat_map (fun e => if smem str_eqb x (snd e) then
+                           let l' := sdel str_eqb x (snd e) in if is_nil l' then [] else [(fst e, l')]
+                         else [e]) t)) -> In k (map fst t)).
+  { intros k Hk. apply in_map_iff in Hk as [[k1 l1] [<- Hin]]. apply in_flat_map in Hin as [[k2 l2] [Hin2 Hin]].
+    simpl in Hin. apply in_map_iff. destruct (smem str_eqb x l2).
+    - destruct (is_nil (sdel str_eqb x l2)); [destruct Hin|]. destruct Hin as [Hin|[]]. inversion Hin; subst.
+      exists (k1, l2). auto.
+    - destruct Hin as [Hin|[]]. inversion Hin; subst. exists (k1, l1). auto. }
+  destruct (smem str_eqb x l0); simpl.
+  - destruct (is_nil (sdel str_eqb x l0)); simpl; [apply IH; assumption|].
+    constructor; [intro Hk; apply H2, Hsub, Hk | apply IH; assumption].
+  - constructor; [intro Hk; apply H2, Hsub, Hk | apply IH; assumption].
+Qed.
+
+#[export] Hint Resolve ND_aset_S ND_aset_N ND_aremove_S ND_aremove_N ND_filter ND_flat_peer : dk.
+
+Ltac dk_tac :=
+  crush_match; unfold DK in *; simpl in *;
+  repeat match goal with H : _ /\ _ |- _ => destruct H end;
+  repeat split; simpl; eauto 7 with dk; fail.
+
+Lemma complete_DK n id ok : DK n -> DK (fst (complete n id ok)).
+Proof. intro H. unfold complete. dk_tac. Qed.
+
+Lemma send_req_DK n id q : DK n -> DK (fst (send_req n id q)).
+Proof.
+  intro H. unfold send_req. destruct (can_send n (pq_ctx q)); [exact H|].
+  pose proof (complete_DK n id false H) as H1. destruct (complete n id false) as [n1 r1]. simpl in H1.
+  destruct r1 as [[id2 q2]|]; simpl; [|exact H1]. apply complete_DK. exact H1.
+Qed.
+
+Lemma handle_reply_DK n id ok : DK n -> DK (fst (handle_reply n id ok)).
+Proof.
+  intro H. unfold handle_reply.
+  pose proof (complete_DK n id ok H) as H1. destruct (complete n id ok) as [n1 r1]. simpl in H1.
+  destruct r1 as [[id2 q2]|]; simpl; [|exact H1]. apply send_req_DK. exact H1.
+Qed.
+
+Lemma remove_local_DK n k r : DK n -> DK (fst (remove_local n k r)).
+Proof. intro H. unfold remove_local. dk_tac. Qed.
+
+Lemma sub_remote_DK n call c p s r : DK n -> DK (fst (sub_remote n call c p s r)).
+Proof.
+  intro H. unfold sub_remote.
+  destruct (alookup str_eqb (key3 c p s) (n_lsubs n)) as [[|x l]|] eqn:El.
+  2: { dk_tac. }
+  all: destruct (alookup str_eqb (key3 c p s) (n_pname n)) as [q|] eqn:Eq; [solve [dk_tac]|];
+    unfold new_request;
+    match goal with |- context [send_req ?a ?b ?c] =>
+      assert (Ha : DK a) by dk_tac; pose proof (send_req_DK a b c Ha) as Hs; destruct (send_req a b c) end;
+    exact Hs.
+Qed.
+
+Lemma unsub_remote_DK n c p s r : DK n -> DK (fst (unsub_remote n c p s r)).
+Proof.
+  intro H. unfold unsub_remote. pose proof (remove_local_DK n (key3 c p s) r H) as H0.
+  destruct (remove_local n (key3 c p s) r) as [n1 last]. simpl in H0.
+  destruct last; [|exact H0].
+  destruct (alookup str_eqb (key3 c p s) (n_pname n1)); [exact H0|].
+  unfold new_request.
+  match goal with |- context [send_req ?a ?b ?c] =>
+    assert (Ha : DK a) by dk_tac; pose proof (send_req_DK a b c Ha) as Hs; destruct (send_req a b c) end.
+  exact Hs.
+Qed.
+
+Lemma step_DK n i n' os : node_step n i = Some (n', os) -> DK n -> DK n'.
+Proof.
+  intros H Hn. destruct i; simpl in H.
+  - destruct (negb (names_ok (resolve_ctx n c) p s)); [fst_of H; exact Hn|].
+    destruct (str_eqb (resolve_ctx n c) (n_name n)).
+    + fst_of H. unfold sub_local, add_local. dk_tac.
+    + fst_of H. apply sub_remote_DK. exact Hn.
+  - destruct (alookup N.eqb call (n_done n)); [|discriminate]. fst_of H. exact Hn.
+  - destruct (negb (names_ok (resolve_ctx n c) p s)); [fst_of H; exact Hn|].
+    destruct (str_eqb (resolve_ctx n c) (n_name n)).
+    + fst_of H. apply remove_local_DK. exact Hn.
+    + fst_of H. apply unsub_remote_DK. exact Hn.
+  - destruct (negb (valid_name p && valid_name s)); fst_of H; exact Hn.
+  - destruct (find_job j (n_jobs n)); [|discriminate]. destruct (smem N.eqb r (j_todo j0)); [|discriminate]. fst_of H. exact Hn.
+  - destruct (find_job j (n_jobs n)); [|discriminate]. destruct (j_todo j0); [|discriminate].
+    destruct (j_rsnap j0); [discriminate|]. fst_of H. exact Hn.
+  - destruct (find_job j (n_jobs n)); [|discriminate]. destruct (smem str_eqb x (j_rtodo j0)); [|discriminate]. fst_of H. exact Hn.
+  - fst_of H. exact Hn.
+  - fst_of H. unfold object_removed. dk_tac.
+  - destruct m; fst_of H.
+    + unfold deliver_remote. dk_tac.
+    + unfold handle_sub_request, add_remote, remove_remote. dk_tac.
+    + apply handle_reply_DK. exact Hn.
+    + dk_tac.
+  - fst_of H. apply handle_reply_DK. exact Hn.
+  - fst_of H. exact Hn.
+  - fst_of H. unfold peer_removed. dk_tac.
+Qed.
+
+Lemma run_DK ins : forall n n' os, node_run n ins = Some (n', os) -> DK n -> DK n'.
+Proof.
+  induction ins as [|i r IH]; simpl; intros n n' os H Hn.
+  - inversion H; subst. exact Hn.
+  - destruct (node_step n i) as [[n1 o1]|] eqn:E; [|discriminate].
+    destruct (node_run n1 r) as [[n2 o2]|] eqn:E2; [|discriminate]. inversion H; subst.
+    eapply IH; [exact E2 | eapply step_DK; eauto].
+Qed.
+
+Lemma init_DK nm objs : DK (init_node nm objs).
+Proof. unfold DK, init_node. simpl. repeat split; constructor. Qed.
+
+(* ---- the statement of C08_tables_consistent, from the invariants ---- *)
+Lemma tables_consistent nm objs ins n os :
+  nodot nm = true -> node_run (init_node nm objs) ins = Some (n, os) ->
+  (* dictionaries *)
+  (NoDup (map fst (n_lsubs n)) /\ NoDup (map fst (n_rsubs n)) /\ NoDup (map fst (n_pid n)) /\ NoDup (map fst (n_pname n))) /\
+  (* by_id and by_name describe the same set of pending requests, one id per request *)
+  (forall id key, In (id, key) (n_pid n) -> exists q, In (key, q) (n_pname n)) /\
+  (forall key q, In (key, q) (n_pname n) -> exists id, In (id, key) (n_pid n)) /\
+  (forall id1 id2 key, In (id1, key) (n_pid n) -> In (id2, key) (n_pid n) -> id1 = id2) /\
+  (forall key q, In (key, q) (n_pname n) -> key = key3 (pq_ctx q) (pq_pub q) (pq_sig q)) /\
+  (* no empty sets stored *)
+  (forall key l, In (key, l) (n_lsubs n) -> l <> []) /\
+  (forall key l, In (key, l) (n_rsubs n) -> l <> []) /\
+  (forall key q, In (key, q) (n_pname n) -> pq_sub q = true -> pq_recv q <> []) /\
+  (* local subscription non-empty => no pending request for that signal *)
+  (forall key l, In (key, l) (n_lsubs n) -> forall q, ~ In (key, q) (n_pname n)).
+Proof.
+  intros Hd Hr.
+  pose proof (run_TInv _ _ _ _ Hr (init_TInv nm objs Hd)) as (H0 & (P1 & P2 & P3 & P4) & HPV & HNE & HNR & HEX).
+  pose proof (run_DK _ _ _ _ Hr (init_DK nm objs)) as (D1 & D2 & D3 & D4).
+  assert (InLk : forall {K V} (eqb : K -> K -> bool) (Hs : forall a b, eqb a b = true <-> a = b) (t : list (K * V)) k v,
+             NoDup (map fst t) -> In (k, v) t -> alookup eqb k t = Some v).
+  { intros K V eqb Hs t. induction t as [|[k0 v0] t IH]; simpl; intros k v ND Hin; [destruct Hin|].
+    inversion ND as [|? ? Hnotin ND']; subst. destruct Hin as [Hin|Hin].
+    - inversion Hin; subst. rewrite (proj2 (Hs k k) eq_refl). reflexivity.
+    - destruct (eqb k k0) eqn:E; [|apply IH; assumption].
+      apply Hs in E. subst. exfalso. apply Hnotin. apply in_map_iff. exists (k0, v). auto. }
+  repeat split; try assumption.
+  - intros id key Hin. apply (InLk _ _ N.eqb N.eqb_eq) in Hin; [|assumption].
+    destruct (P1 _ _ Hin) as [q Hq]. exists q. eapply alookup_In; [apply str_eqb_spec | exact Hq].
+  - intros key q Hin. apply (InLk _ _ str_eqb str_eqb_spec) in Hin; [|assumption].
+    destruct (P2 _ _ Hin) as [id Hid]. exists id. eapply alookup_In; [apply N.eqb_eq | exact Hid].
+  - intros id1 id2 key Ha Hb. apply (InLk _ _ N.eqb N.eqb_eq) in Ha, Hb; try assumption. eapply P3; eauto.
+  - intros key q Hin. apply (InLk _ _ str_eqb str_eqb_spec) in Hin; [|assumption]. apply (HPV _ _ Hin).
+  - intros key q Hin. apply (InLk _ _ str_eqb str_eqb_spec) in Hin; [|assumption]. apply (HPV _ _ Hin).
+  - intros key l Hin q Hq. apply (InLk _ _ str_eqb str_eqb_spec) in Hin, Hq; try assumption.
+    rewrite (HEX _ _ Hin) in Hq. discriminate.
+Qed.
